@@ -45,6 +45,7 @@ func runIssueVsCompletion(r *ev.Run) {
 		ts.Task(idS, fmt.Sprintf("%08x", t1), agent.COMMAND_SLEEP, map[string]any{"Arguments": "5;10"})
 		ts.CheckIn(idS, 1) // hand-out of T1
 		s := vsched.New(c, 20000, "Tasks", "JobQueue", "sync.Mutex")
+		s.SpinFree = 16 // the loops on these paths parse and wrap, they do not poll (vsched.Sched.SpinFree)
 		var bad []string
 		s.Spawn("operator", func() {
 			if p := ts.Task(idS, fmt.Sprintf("%08x", t2), agent.COMMAND_SLEEP, map[string]any{"Arguments": "6;11"}); p != nil {
